@@ -74,7 +74,7 @@ add("C01", "exploration",
     "property-based testing (rapid) vs an exact-arithmetic arrangement oracle",
     "DESIGN.md C01")
 add("C02", "exploration",
-    "Same pair generator (lattice, hole-nesting and general-position float families; identical operands also spelled as a collection with an empty member of a higher dimension or with every line traced out and partly back) with pairwise exactly-disjoint collection members. DE-9IM oracle: every cell of the exact arrangement is located in I/B/E of each operand by the OGC definitions and M[x][y] is the largest dimension of a cell located (x,y). Relate(a,b) must equal it, Relate(b,a) its transpose, the nine named predicates the documented pattern lists evaluated by an independent matcher (Crosses/Overlaps with dimensions that ignore empty members), plus Contains/Within, Covers/CoveredBy, Disjoint/Intersects, Equals(a,a) relations; RelateMatches against the independent matcher on random (also malformed) matrix/pattern strings. Evidence reports the number of distinct matrices seen.",
+    "Same pair generator (lattice, hole-nesting and general-position float families; identical operands also spelled as a collection with an empty member of a higher dimension or with every line traced out and partly back) with pairwise exactly-disjoint collection members. DE-9IM oracle: every cell of the exact arrangement is located in I/B/E of each operand by the OGC definitions and M[x][y] is the largest dimension of a cell located (x,y). Relate(a,b) must equal it, Relate(b,a) its transpose, the nine named predicates the documented pattern lists evaluated by an independent matcher (Crosses/Overlaps with dimensions that ignore empty members), plus Contains/Within, Covers/CoveredBy, Disjoint/Intersects, Equals(a,a) relations; RelateMatches against the independent matcher on random (also malformed) matrix/pattern strings. Evidence reports the number of distinct matrices seen. Enumerated: operands of 130 and 260 members in a row against a point / line / polygon meeting one of the last two, both argument orders.",
     "Trusted: exact kernel. Strict domain only.",
     "property-based testing (rapid) vs an exact-arithmetic DE-9IM oracle",
     "DESIGN.md C02")
